@@ -1239,13 +1239,15 @@ pub fn run(ctx: &mut Ctx) {
                             let hi = if toks[idx] == "else" { e } else { e + 1 };
                             for st in &plan {
                                 if let Step::At { idx: i, mode, probes } | Step::InjectAt { idx: i, mode, probes } | Step::AddAt { idx: i, mode, probes } = st {
-                                    if (3..=5).contains(mode) && *i >= idx && *i < hi {
+                                    // (an instruction-level alternate *is* the instruction once lowered: inside the region it goes with it)
+                                    if ((3..=5).contains(mode) || (*mode == 2 && *i > idx)) && *i >= idx && *i < hi {
                                         for p in probes {
                                             // (a plain `after` list with the same body stays: the code keeps plain lists of removed instructions)
                                             let plain = plan.iter().any(|x| matches!(x, Step::At { mode: 0 | 1, probes: ps, .. } if ps.contains(p)));
                                             if !plain && out.contains(&format!("i32.const:{p}")) {
                                                 fails.push((
                                                     match *mode {
+                                                        2 => "C21",
                                                         3 => "C20,C21",
                                                         4 => "C18,C21",
                                                         _ => "C19,C21",
